@@ -139,6 +139,7 @@ type run struct {
 	cbs      []service.OnPublishFunc
 	provName string
 	m        *Model
+	cur      *Conn // connection the oracle is currently judging
 }
 
 var provCounter uint64
